@@ -107,6 +107,7 @@ type Job struct {
 	FaultKinds   []string      `json:"fault_kinds,omitempty"`
 	Ops          []Op          `json:"ops,omitempty"`
 	Tasks        []TaskSpec    `json:"tasks,omitempty"`
+	Free         bool          `json:"free,omitempty"`  // c17: tasks run as real parallel goroutines (observation; used when generated code has goroutines/channels of its own)
 	Cold         bool          `json:"cold,omitempty"`  // c17: the scheduled run is the first thing this process does with the generated code (no solo run before it)
 	Reuse        bool          `json:"reuse,omitempty"` // c03: one parser object serves the whole enumeration
 	Schedule     gsim.Schedule `json:"schedule,omitempty"`
